@@ -972,8 +972,8 @@ class Gen:
                     if s.cur_token(t):
                         choices.append(("rootFromLocal", 2))
                 roots = [v for v in rec if s.spans[v]["root_key"]]
-                if roots and s.cancelable and r.chance(1, 3):
-                    choices.append(("cancel", 2))
+                if roots and s.cancelable and (self.k.get("overload") or r.chance(1, 3)):
+                    choices.append(("cancel", 8 if self.k.get("overload") else 2))
                 elif spans and r.chance(1, 10):
                     choices.append(("cancel", 5 if self.k.get("overload") else 1))
                 if s.lspans:
